@@ -629,7 +629,11 @@ theorem outline_list_step (cfg : Cfg) (K : Nat) (o : O) (os : List O) (ho : okO 
     simp only [List.length_append, lnsO_length, ← Nat.add_assoc, List.append_assoc] at this
     simp only [lns, size, sizeO, ← Nat.add_assoc] at this ⊢
     exact this
-  simp only [readList, hil, htok]
+  have hom : otherMarkerType ld nm = false := by
+    rcases hln with ⟨rfl, _⟩ | ⟨rfl, rfl⟩
+    · exact otherMarkerType_none_left _
+    · simp only [nextOf, otherMarkerType, markerOf]; decide
+  simp only [readList, hom, Bool.false_eq_true, ↓reduceIte, hil, htok]
   have hsm : sameMarkerType ['-'] ['-'] = true := by decide
   have hstop : ∀ (fwEnd : FW), (Res.ok ((match (expItem col (start + pre.length) (.node t kids) :: acc) with
         | .mk inner loose i p l n g :: rest => Item.mk inner (decide (inner.length > 1) && loose) i p l n g :: rest
@@ -644,15 +648,14 @@ theorem outline_list_step (cfg : Cfg) (K : Nat) (o : O) (os : List O) (ho : okO 
     simp only [nextOf, expItems, size, sizeO, Nat.add_zero]
     rcases hln with ⟨rfl, _⟩ | ⟨rfl, _⟩
     · exact hstop _
-    · simp only [hsm, Bool.not_true, Bool.false_eq_true, if_false]; exact hstop _
+    · exact hstop _
   | cons o' os' =>
     have hr := hrec (by simp)
     simp only [expItems]
     rcases hln with ⟨rfl, _⟩ | ⟨rfl, _⟩
     · simp only [nextOf] at hr ⊢
       rw [hr]; simp [expItems]
-    · simp only [hsm, Bool.not_true, Bool.false_eq_true, if_false]
-      simp only [nextOf] at hr ⊢
+    · simp only [nextOf] at hr ⊢
       rw [hr]; simp [expItems]
 
 theorem lns_head (col n : Nat) (o : O) (os : List O) :
